@@ -293,6 +293,24 @@ Definition c_storage (st : server) (now : Z) (user : bs) (r : row) : option bs :
     if bs_eqb (g_sub g) user then Some (g_data g) else None
   else None.
 
+(* The two arms of GetSigned's select: the primary answered within remoteDBQueryTimeout, or it
+   did not (slow, or failing: the goroutine does not answer) and the row of the local cache DB
+   is taken instead.  Either arm hands ITS row to the verification above. *)
+Inductive rpath := PPrimary | PCache.
+Definition answering_row (p : rpath) (prim cache : option row) : option row :=
+  match p with PPrimary => prim | PCache => cache end.
+Definition get_signed_via (p : rpath) (st : server) (now : Z) (user : bs) (prim cache : option row) : option bs :=
+  match answering_row p prim cache with
+  | Some r => c_storage st now user r
+  | None => None
+  end.
+(* a read path that verifies signature, kind, issuer, audience and window of the cache's row but
+   does not compare its subject with the requested user (refuted in Props/C04.v) *)
+Definition c_storage_nosub (st : server) (now : Z) (user : bs) (r : row) : option bs :=
+  if r_col_exp r >? unix now then
+    do g <- storage_data st now (r_jws r); Some (g_data g)
+  else None.
+
 (* before the fix: the signed exp claim was never looked at *)
 Definition storage_data_old (st : server) (now : Z) (t : token) : option storagejwt :=
   if verify st t then
